@@ -103,6 +103,27 @@ func runC01(c *Cfg) {
 			}
 		}
 	})
+	// a node object whose first run never started (its context was done already) runs normally afterwards
+	var pc []*scen.Scenario
+	for kind := 0; kind < scen.NumScriptedKinds; kind++ {
+		for _, pk := range []string{"pre-cancel", "pre-deadline", "pre-expired"} {
+			for depth := 0; depth <= 1; depth++ {
+				ns := scen.NodeSpec{Kind: kind, N: 2, HasFB: scen.KindCanFB(kind), Visits: []scen.Visit{{FirstOK: 2, Post: "go"}, {FirstOK: 1, Post: "go"}}}
+				nodes := []scen.NodeSpec{ns}
+				root := 0
+				if depth == 1 {
+					nodes = append(nodes, scen.NodeSpec{Kind: scen.KFlow, N: 1, Flow: &scen.FlowSpec{Start: 0}})
+					root = 1
+				}
+				pc = append(pc, &scen.Scenario{Nodes: nodes, Root: root, Runs: 3, UseFlowRun: depth == 1 && kind%2 == 0, Inject: scen.Inject{Kind: pk, OneRun: true, Run: 0}})
+			}
+		}
+	}
+	parallel(c, len(pc), func(i int) {
+		judgeFor(c, "C01", "after-a-run-that-never-started", pc[i])
+		r.Count("after_unstarted_run.cases", 1)
+		r.Nontrivial("pc:" + scenSig(pc[i]))
+	})
 	hugeBudgetCases(c, "C01")
 	// a rescuing fallback may hand back an error RESULT (with a nil error): the exec phase then "produced a result
 	// without error", so post runs, once, and receives that result
@@ -167,7 +188,7 @@ func runC01(c *Cfg) {
 		}
 		if sc.Runs > 1 && i%5 == 0 {
 			// run 0 is cancelled somewhere; the lifecycle of every node in the later runs is as if nothing had happened
-			sc.Inject = scen.Inject{Kind: []string{"cancel", "deadline"}[i/5%2], At: rg.IntN(12), OneRun: true, Run: 0}
+			sc.Inject = scen.Inject{Kind: []string{"cancel", "deadline", "pre-cancel", "pre-deadline", "pre-expired"}[i/5%5], At: rg.IntN(12), OneRun: true, Run: 0} // (also: run 0 never got started because its context was done already)
 		}
 		outs, _ := judgeFor(c, "C01", "embedded", sc)
 		ev := 0
@@ -353,6 +374,27 @@ func runC02(c *Cfg) {
 		r.Nontrivial("sv:" + scenSig(sv[i]))
 	})
 	hugeBudgetCases(c, "C02")
+	// a budget of one with a retry wait configured (before / after the budget, every route): still exactly one attempt
+	var bw []*scen.Scenario
+	for kind := 0; kind < scen.NumScriptedKinds; kind++ {
+		if !scen.KindHasRetry(kind) {
+			continue
+		}
+		for _, k := range []int{1, 2} {
+			for _, fb := range []bool{false, true} {
+				if fb && !scen.KindCanFB(kind) {
+					continue
+				}
+				ns := scen.NodeSpec{Kind: kind, N: 1, HasFB: fb, WaitMs: 1 + k, Visits: []scen.Visit{{FirstOK: k, Post: "go"}}}
+				bw = append(bw, &scen.Scenario{Nodes: []scen.NodeSpec{ns}, Root: 0, Runs: 1})
+			}
+		}
+	}
+	parallel(c, len(bw), func(i int) {
+		judgeFor(c, "C02", "budget-one-with-a-wait", bw[i])
+		r.Count("budget_one_with_wait.cases", 1)
+		r.Nontrivial("bw:" + scenSig(bw[i]))
+	})
 	// the budget a node's own prep chooses (whatever it was built with) is the budget of this run — also on the second
 	// run of the same node, which chooses again
 	var bp []*scen.Scenario
